@@ -153,6 +153,12 @@ Theorem C06_update_cells_outside : forall (V : Type) (dflt : V) spots vals d q c
 Proof. exact @update_cells_outside. Qed.
 Print Assumptions C06_update_cells_outside.
 
+Theorem C06_update_cells_at : forall (V : Type) (dflt : V) spots vals d k q c,
+  NoDup spots -> length vals = length spots -> nth_error spots k = Some (q, c) -> inb d q c = true ->
+  get dflt (update_cells d spots vals) q c = nth k vals dflt.
+Proof. exact @update_cells_at. Qed.
+Print Assumptions C06_update_cells_at.
+
 (* exogenized cells carry their input values after the frame is simulated, whatever the solver returns *)
 Theorem C06_exogenized_untouched : forall (V : Type) (dflt zero : V) S input main f oracle q c,
   In (q, c) (frame_exog S f) ->
